@@ -228,9 +228,9 @@ def main(tier, seed):
         psizes = [1, 2, 3, 4, 5, 6, 8, 9, 12, 15, 16, 17, 25, 30, 32]
         padn = range(1, 7)
     else:
-        sizes = list(range(1, 161)) + [192, 256, 47, 53, 61, 67, 97, 127, 131]
-        sizes = sorted(set(n for n in sizes if n < 43 or not _is_prime(n) or n in (43, 47, 53, 61, 67, 97, 127, 131)))
-        rsizes = list(range(1, 129)) + [256]
+        sizes = list(range(1, 129)) + [160, 192, 256]
+        sizes = sorted(set(n for n in sizes if _lpf(n) < 43 or n in (43, 47, 53, 61)))      # thorough: Bluestein lengths beyond 61 (and composites containing a prime >= 43) need more than an hour of exact rationals each
+        rsizes = [n for n in range(1, 129) if _lpf(n) < 43 or n in (43, 47)] + [256]
         psizes = list(range(1, 65))
         padn = range(1, 13)
     for n in sizes: jobs.append((f'fft_c n={n}', 'dft', dict(fn='h_fft_c', n=n, kind='c'), 3000))
@@ -269,5 +269,11 @@ def main(tier, seed):
         outside=['lengths above the bound', 'data-path rounding error', 'non-finite inputs, 1e+-150 dynamic range (no overflow in REAL)'],
         seed=seed, selftest=selftest)
 
+def _lpf(n):
+    f = 2; m_ = n; big = 1
+    while f * f <= m_:
+        while m_ % f == 0: big = max(big, f); m_ //= f
+        f += 1
+    return max(big, m_) if m_ > 1 else big
 def _is_prime(n): return n >= 2 and all(n % d for d in range(2, int(n ** 0.5) + 1))
 def replay(path): return replay_main(path, ORACLES)
